@@ -9,7 +9,9 @@ use std::task::{Context, Poll};
 use bytes::Bytes;
 use h3::error::internal_error::InternalConnectionError;
 use h3::error::Code;
-use h3::ConnectionState;
+use h3::error::connection_error_creators::CloseStream;
+use h3::error::{ConnectionError, LocalError, StreamError};
+use h3::{ConnectionState, SharedState};
 use mock::*;
 
 fn main() {
@@ -20,6 +22,12 @@ fn main() {
     }
     let rc = match args[1].as_str() {
         "c05_lost_wakeup" => c05_lost_wakeup(args.get(2).map(|s| s.as_str()).unwrap_or("")),
+        "c03_empty_data" => c03_empty_data(),
+        "c05_second_error" => c05_second_error(),
+        "c08_shutdown_sequence" => c08_shutdown_sequence(
+            args.get(2).and_then(|s| s.parse().ok()).unwrap_or(2),
+            args.get(3).and_then(|s| s.parse().ok()).unwrap_or(0),
+        ),
         "c04_frame_lost" => c04_frame_lost(args.get(2).map(|s| s == "no_backpressure").unwrap_or(false)),
         "c08_goaway" => c08_goaway(
             args.get(2).and_then(|s| s.parse().ok()).unwrap_or(0),
@@ -240,4 +248,166 @@ fn c04_frame_lost(no_backpressure: bool) -> i32 {
     } else {
         0
     }
+}
+
+
+/// A request handle as far as connection errors are concerned: shares the connection's SharedState.
+struct Handle(Arc<SharedState>);
+impl ConnectionState for Handle {
+    fn shared_state(&self) -> &SharedState {
+        &self.0
+    }
+}
+impl CloseStream for Handle {}
+
+/// Two request tasks detect two different connection errors one after the other: the second must report the FIRST
+/// error (the connection's single outcome), and the driver must close with the first error's code.
+fn c05_second_error() -> i32 {
+    let mock = Mock::new(true);
+    let mut conn: h3::server::Connection<Mock, Bytes> =
+        drive(h3::server::builder().build(mock.clone()), 10).expect("build completes").expect("build ok");
+    let mut h1 = Handle(conn.inner.shared.clone());
+    let mut h2 = Handle(conn.inner.shared.clone());
+    let code_of = |e: &StreamError| match e {
+        StreamError::ConnectionError(ConnectionError::Local { error: LocalError::Application { code, .. } }) => Some(code.value()),
+        _ => None,
+    };
+    let e1 = h1.handle_connection_error_on_stream(InternalConnectionError::new(Code::H3_FRAME_UNEXPECTED, "first".to_string()));
+    let e2 = h2.handle_connection_error_on_stream(InternalConnectionError::new(Code::H3_ID_ERROR, "second".to_string()));
+    let (_c, waker) = counting_waker();
+    let mut cx = Context::from_waker(&waker);
+    let d = conn.inner.poll_connection_error(&mut cx);
+    let dcode = match &d {
+        Poll::Ready(Err(ConnectionError::Local { error: LocalError::Application { code, .. } })) => Some(code.value()),
+        _ => None,
+    };
+    let closed = mock.world.lock().unwrap().log.closed.clone();
+    println!(
+        "first handle reports {:?}, second handle reports {:?}, driver reports {:?}, close calls {:?}",
+        code_of(&e1), code_of(&e2), dcode, closed.iter().map(|c| c.0).collect::<Vec<_>>()
+    );
+    std::mem::forget(conn);
+    let first = Code::H3_FRAME_UNEXPECTED.value();
+    if code_of(&e1) != Some(first) || code_of(&e2) != Some(first) || dcode != Some(first) || closed.len() != 1 || closed[0].0 != first {
+        println!("REPRODUCED: not every party reports / closes with the first connection error (0x{:x})", first);
+        1
+    } else {
+        0
+    }
+}
+
+/// Server: accept one request (id 0), shutdown(n1), shutdown(n2); then requests arrive with every id from 0 up to the
+/// first announced id. GOAWAY ids must never increase and every arriving id >= the LAST GOAWAY id must be rejected.
+fn c08_shutdown_sequence(n1: usize, n2: usize) -> i32 {
+    let mock = Mock::new(true);
+    let mut conn: h3::server::Connection<Mock, Bytes> =
+        drive(h3::server::builder().build(mock.clone()), 10).expect("build completes").expect("build ok");
+    let (_c, waker) = counting_waker();
+    let mut cx = Context::from_waker(&waker);
+    mock.push_bidi(0, vec![]);
+    if let Poll::Ready(Ok(Some(s))) = conn.poll_accept_request_stream(&mut cx) {
+        std::mem::forget(s);
+    }
+    let _ = drive(conn.shutdown(n1), 10);
+    let _ = drive(conn.shutdown(n2), 10);
+    let ctrl = mock.world.lock().unwrap().log.sent.get(&3).cloned().unwrap_or_default();
+    let ids = goaway_ids(&ctrl);
+    println!("shutdown({}) then shutdown({}) wrote GOAWAY ids {:?}", n1, n2, ids);
+    let mut rc = 0;
+    for w in ids.windows(2) {
+        if w[1] > w[0] {
+            println!("REPRODUCED: GOAWAY ids increase: {} then {}", w[0], w[1]);
+            rc = 1;
+        }
+    }
+    let (Some(&first), Some(&last)) = (ids.first(), ids.last()) else {
+        println!("no GOAWAY written");
+        return rc;
+    };
+    let mut id = 4;
+    while id <= first.max(last) + 4 {
+        mock.push_bidi(id, vec![]);
+        let handed_out = match conn.poll_accept_request_stream(&mut cx) {
+            Poll::Ready(Ok(Some(s))) => {
+                std::mem::forget(s);
+                true
+            }
+            _ => false,
+        };
+        if handed_out && id >= last {
+            println!("REPRODUCED: request {} >= last GOAWAY id {} was handed to the application", id, last);
+            rc = 1;
+        }
+        if !handed_out && id < last {
+            println!("REPRODUCED: request {} < last GOAWAY id {} was not handed out", id, last);
+            rc = 1;
+        }
+        id += 4;
+    }
+    std::mem::forget(conn);
+    rc
+}
+
+
+/// Server receives HEADERS, DATA(0), DATA(3)="abc", FIN on one request stream and reads it with the documented call
+/// pattern (recv_data until None, then recv_trailers). The sequence is valid (RFC 9114 4.1; DATA frames may be empty):
+/// the body must be "abc" and no error may occur.
+fn c03_empty_data() -> i32 {
+    let mock = Mock::new(true);
+    let mut conn: h3::server::Connection<Mock, Bytes> =
+        drive(h3::server::builder().build(mock.clone()), 10).expect("build completes").expect("build ok");
+    // field section: :method GET, :scheme https, :path /, :authority "a" (static name reference 0, plain value)
+    let block = [0x00u8, 0x00, 0xd1, 0xd7, 0xc1, 0x50, 0x01, b'a'];
+    let mut bytes = vec![0x01, block.len() as u8];
+    bytes.extend_from_slice(&block);
+    bytes.extend_from_slice(&[0x00, 0x00]); // DATA, length 0
+    bytes.extend_from_slice(&[0x00, 0x03, b'a', b'b', b'c']); // DATA "abc"
+    mock.push_bidi(0, vec![RecvEvent::Data(bytes), RecvEvent::Fin]);
+    let resolver = match drive(conn.accept(), 10) {
+        Some(Ok(Some(r))) => r,
+        _ => {
+            println!("request not accepted");
+            return 0;
+        }
+    };
+    let (_req, mut stream) = match drive(resolver.resolve_request(), 10) {
+        Some(Ok(x)) => x,
+        other => {
+            println!("request headers not resolved: {:?}", other.map(|r| r.map(|_| ())));
+            return 0;
+        }
+    };
+    let mut body = Vec::new();
+    let mut rc = 0;
+    loop {
+        match drive(stream.recv_data(), 10) {
+            Some(Ok(Some(mut b))) => {
+                use bytes::Buf;
+                while b.has_remaining() {
+                    body.push(b.chunk()[0]);
+                    b.advance(1);
+                }
+            }
+            Some(Ok(None)) => break,
+            Some(Err(e)) => {
+                println!("recv_data error: {:?}", e);
+                rc = 1;
+                break;
+            }
+            None => {
+                println!("recv_data pending");
+                break;
+            }
+        }
+    }
+    let trailers = drive(stream.recv_trailers(), 10);
+    println!("body delivered before end-of-body: {:?}; recv_trailers: {:?}", String::from_utf8_lossy(&body), trailers.as_ref().map(|r| r.as_ref().map(|_| ())));
+    if body != b"abc" || !matches!(trailers, Some(Ok(None))) {
+        println!("REPRODUCED: an empty DATA frame ended the body early / the following DATA frame became a connection error; close calls {:?}",
+            mock.world.lock().unwrap().log.closed.iter().map(|c| c.0).collect::<Vec<_>>());
+        rc = 1;
+    }
+    std::mem::forget(stream);
+    std::mem::forget(conn);
+    rc
 }
